@@ -79,7 +79,13 @@ def run(ctx):
         "segment. Byte order is preserved by Encode; the property speaks about moof/mdat pairs only.",
         "UpdateSidx leaves the further top-level sidx boxes and an mfra/tfra (moof offsets) as they were: after a sidx is "
         "inserted the tfra offsets are stale. The property's tiling claim is about the (first) sidx only.",
-        "boxes outside init/sidx/segments/mfra (free, a second ftyp, a progressive mdat ...) are dropped by segment-mode Encode.",
+        "boxes outside init/sidx/segments/mfra (free, a second ftyp, a progressive mdat ...) are dropped by segment-mode Encode "
+        "(C12_reencode_refuted lists every class).",
+        "earliest_presentation_time (nonZeroEPT) is taken from the FIRST fragment of the first segment only: when that fragment "
+        "holds no traf of the reference track (tracks in alternating single-track fragments) it is 0, and the composition offset "
+        "is only looked for in the first trun. Model, generator and oracle mirror this; the property text does not constrain ept.",
+        "a segment of 2 GiB or more, or with 2^32 or more ticks of the reference track, cannot be indexed by a sidx: UpdateSidx "
+        "returns an error (since 85561e1) and the search accepts that.",
     ]
     exe, model = build(ctx)
     pr = ctx.proofs("c12", "C12Theorems.v")
